@@ -1,5 +1,6 @@
 (* C02 - DER and CER round trip; canonical output accepted by every wider decoder.  Statements only. *)
-From PV Require Import Base.Bytes Model.Types Model.TableTypes Model.Enc Model.Dec Proofs.TableFacts.
+From PV Require Import Base.Bytes Model.Tag Model.Types Model.TableTypes Model.Enc Model.Dec Gen.Tables
+     Proofs.TableFacts Proofs.TagsetShape Proofs.RoundTrip1.
 Local Open Scope N_scope.
 
 (* On the regenerated dispatch tables: every DER decoder entry is the CER entry or differs from
@@ -19,3 +20,20 @@ Theorem C02_fixed_modes :
   enc_fixed CER = (Some false, Some 1000) /\ enc_fixed DER = (Some true, Some 0) /\ enc_fixed BER = (None, None).
 Proof. exact fixed_modes_facts. Qed.
 Print Assumptions C02_fixed_modes.
+
+(* Stage 1, for every input: the DER encoding of any simple-typed value under any stack of tags is
+   accepted by the DER, the CER and the BER decoder alike, each returning a value with the same
+   abstract content and exactly the trailing octets *)
+Theorem C02_der_accepted_stage1 : forall cd T v b tl,
+  wf_tags T = true -> stage1_val DER cd T v = true ->
+  encode DER true 0 T v = Ok b -> N.of_nat (length b) <= index_max ->
+  exists v', decode cd (Some T) (b ++ tl) = Ok (DV T v', tl) /\ abs T v' = abs T v.
+Proof. exact der_accepted_stage1. Qed.
+Print Assumptions C02_der_accepted_stage1.
+
+Example C02_der_accepted_stage1_nonvacuous :
+  let T := TImp (mkTag Priv false 31) TBool in
+  wf_tags T = true /\ stage1_val DER CER T (VBool true) = true /\ stage1_val DER BER T (VBool true) = true
+  /\ stage1_val DER DER T (VBool true) = true
+  /\ encode DER true 0 T (VBool true) = Ok [223; 31; 1; 255].
+Proof. vm_compute. repeat split. Qed.
